@@ -130,13 +130,17 @@ def tagBlock (i : Bytes) : Res (Bytes × Unit) := do
   let (i, _) ← tag [0x5C] i
   ok (i, ())
 
+/-- `alt((tag("!"), tag("$")))` -/
+def delimiter (i : Bytes) : Res (Bytes × Bytes) :=
+  match tag [0x21] i with
+  | ok r => ok r
+  | err (.nomError _) => tag [0x24] i
+  | e => e
+
 /-- `parse_nmea_sentence` (with the fields parsed inside the checksummed slice — D9 fix). -/
 def parseNmeaSentence (cfg : Cfg) (i : Bytes) : Res (Bytes × Sentence × Nat) := do
   let (i, _) ← opt tagBlock i
-  let (i, _) ← (match tag [0x21] i with          -- alt((tag("!"), tag("$")))
-    | ok r => ok r
-    | err (.nomError _) => tag [0x24] i
-    | e => e)
+  let (i, _) ← delimiter i
   let (i, raw) ← takeUntil 0x2A i
   let (rest, msg) ← parseAisSentence cfg raw
   if rest ≠ [] then err (.nomError .eof)            -- all_consuming
